@@ -565,6 +565,9 @@ class RZILTransformer(Transformer):
         result = self.simplify_conditional_expr(items)
         if result:
             return result
+        if not isinstance(items[0], Pure) or items[0].value_type.group & VTGroup.VOID:
+            # An assignment or a call without value. As condition it would never be sequenced.
+            raise NotImplementedError(f"The condition of ?: has no value: {items[0]}")
         then_p = items[1]
         else_p = items[2]
 
@@ -797,6 +800,9 @@ class RZILTransformer(Transformer):
 
     def boolean_expr(self, items):
         if items[0] == "!":
+            if not isinstance(items[1], Pure) or items[1].value_type.group & VTGroup.VOID:
+                # An assignment or a call without value. As operand it would never be sequenced.
+                raise NotImplementedError(f"The operand of ! has no value: {items[1]}")
             t = BooleanOpType(items[0])
             name = f"op_INV"
             v = BooleanOp(name, items[1], None, t)
